@@ -109,7 +109,7 @@ def gen_mw_spec(rng):
     if r < 0.5:
         return {"outcome": "allow", "delay": delay}
     if r < 0.8:
-        return {"outcome": "deny", "delay": delay, "response": rng.choice(["53 Denied\r\n", "44 Slow down\r\n", "60 Cert\r\n"])}
+        return {"outcome": "deny", "delay": delay, "response": rng.choice(["53 Denied\r\n", "44 Slow down\r\n", "60 Cert\r\n", "53 Denied\r\n", None, ""])}
     return {"outcome": "raise", "delay": delay, "exc": rng.choice(EXC_NAMES), "msg": rng.choice(EXC_MSGS)}
 
 
